@@ -363,7 +363,7 @@ PROPS["C03"] = {
 }
 PROPS["C04"] = {
     "coq": "theories/Props/C04.v",
-    "theorems": ["C04_bounds_exact", "C04_bounds_match_decoded_frames"],
+    "theorems": ["C04_bounds_exact", "C04_bounds_match_decoded_frames", "C04_precomputed_frames_same_bounds"],
     "streams": "ENC+DLV", "rule": "ENC+DLV",
     "oracle": lambda pid, res, driver: enc_oracle(pid, res, driver) + enc_oracle(pid, res, driver, "DLV"),
     "assumptions": ["frame_size_field = count_bits/8; that this is the emitted byte length is property C08"],
@@ -685,7 +685,8 @@ PROPS["C16"] = {
     "coq": "theories/Props/C16.v",
     "theorems": ["C16_crc16_detects_bursts", "C16_crc8_detects_bursts", "C16_crc_is_bitwise", "C16_crc16_accept_iff",
                  "C16_crc16_field_bursts", "C16_crc8_field_bursts", "C16_footer_bursts",
-                 "C16_accepted_frame_has_valid_crc", "C16_altered_frame_rejected_at_boundary"],
+                 "C16_accepted_frame_has_valid_crc", "C16_altered_frame_rejected_at_boundary",
+                 "C16_accepted_frame_has_valid_header_crc", "C16_altered_header_rejected_at_boundary"],
     "streams": [PARSE_STREAM], "rule": PARSE_RULE,
     "oracle": parse_oracle,
     "assumptions": ["PARTIAL: bursts that change the number of bits consumed by the subframes (CRC window moves) are enumerated, not proved",
@@ -1498,6 +1499,6 @@ ENC_STREAM = {"name": "ENC", "quick": 700, "thorough": 12000, "profiles": ["debu
 ENC_RULE = ("ENC: whole-stream single-thread encoding of generated inputs (signal grammar: silence, DC, full-scale, "
             "alternating sign, impulses, noise at several levels, sinusoids, ramps, narrow-band AR, quadratic-residue, "
             "sparse; correlated/anti-correlated stereo; concatenations), widths 8/12/16/20/24, 1-8 channels, block sizes "
-            "32..1152 incl. boundaries, 0-3 full blocks plus tails 0/1/15/16/17/random, all rate code classes, random "
+            "32..1152 incl. boundaries (1 case in 64: a LARGE block of 2304..32767 samples), 0-3 full blocks plus tails 0/1/15/16/17/random, all rate code classes, random "
             "verified configurations over all fields. Observable: every byte of the stream, per-frame subframe kinds/orders, "
             "count_bits. Non-trivial = at least one Fixed/LPC subframe; distinct = distinct case text.")
